@@ -396,3 +396,8 @@ impl EncryptionParameterQualifiers {
     }
 
 }
+
+// Verification hook (add-only): compiled only under `cargo kani` or `--cfg heathcliff_verif`.
+#[cfg(any(kani, heathcliff_verif))]
+#[path = "/verif/incrate/encryption_parameters_v.rs"]
+pub(crate) mod verif_v;
